@@ -273,6 +273,7 @@ def r3(ctx):
 
 
 SHAPE_CASES = [('point', 2), ('text', 2), ('circle', 3), ('line', 4), ('polygon', 6), ('ellipse', 5), ('box', 5),
+               ('ellipse', 4), ('box', 4),
                ('annulus', 4), ('annulus', 6), ('ellipse', 7), ('box', 7), ('ellipse', 9), ('box', 9)]
 
 
@@ -360,6 +361,16 @@ def _template_check(m, shape, rt, n, regs):
             and [_lex(i)[:2] for i in ys.items] == [(k, 'coord') for k in range(1, n, 2)]
         if not ok:
             probs.append('polygon vertices are not alternating x,y coordinates')
+    if shape in ('ellipse', 'box') and n == 4:
+        # the angle is optional in DS9 (default 0): both sizes are still sizes
+        dbl = 2 if shape == 'ellipse' else 1
+        if _lex(r0.fields.get('width')) != (2, 'size', dbl) or _lex(r0.fields.get('height')) != (3, 'size', dbl):
+            probs.append(f'{shape}(x, y, a, b) without angle: width/height are {show(r0.fields.get("width"), 60)}, '
+                         f'{show(r0.fields.get("height"), 60)}; expected parameters 2,3 as lengths'
+                         f'{" doubled (DS9 ellipse radii are semi-axes)" if dbl == 2 else " undoubled"} — the angle is optional in DS9')
+        ang = show(r0.fields.get('angle'), 80)
+        if "'0'" not in ang and ang not in ('0', '0.0'):
+            probs.append(f'{shape}(x, y, a, b) without angle: the angle is {ang}, not the default 0')
     if shape in ('ellipse', 'box') and n == 5:
         dbl = 2 if shape == 'ellipse' else 1
         if _lex(r0.fields.get('width')) != (2, 'size', dbl) or _lex(r0.fields.get('height')) != (3, 'size', dbl):
@@ -613,6 +624,8 @@ def _doc_cases():
         ('case, semicolons, comments', '# comment\nIMAGE;CIRCLE(1,2,3);circle 4 5 6 # text={a;b}\n\n# text(1,2) text={hi}',
          [('image', 'pixel', 'circle', '1,2,3', I1), ('image', 'pixel', 'circle', '4 5 6', {'include': 1, 'text': 'a;b'}),
           ('image', 'pixel', 'text', '1,2', {'include': 1, 'text': 'hi'})]),
+        ('a comment line is a comment up to the end of the line', 'image\n# note; circle(1,2,3)\ncircle(4,5,6)\n#circle(7,8,9);circle(1,1,1)',
+         [('image', 'pixel', 'circle', '4,5,6', I1)]),
         ('frame aliases', 'J2000; circle 10:00:00 +20:00:00 3"\nb1950\ncircle(1,2,3)',
          [('j2000', 'sky', 'circle', '10:00:00 +20:00:00 3"', I1), ('b1950', 'sky', 'circle', '1,2,3', I1)]),
     ]
